@@ -767,6 +767,12 @@ pub fn load_fs(vm: &Thread) -> Result<ExternModule> {
 }
 
 pub fn load_path(vm: &Thread) -> Result<ExternModule> {
+    // `metadata` and `symlink_metadata` return `std.fs.Metadata` which only `load_fs` registers,
+    // make sure it exists when `std.path.prim` is the first of the two to be loaded
+    if vm.get_type::<Metadata>().is_none() {
+        vm.register_type::<Metadata>("std.fs.Metadata", &[])?;
+    }
+
     ExternModule::new(
         vm,
         record! {
